@@ -12,7 +12,9 @@
 (*      runtime/swimos_runtime/src/backpressure/map_queue/mod.rs           *)
 (*                                                                         *)
 (* One action per real operation; the case analysis inside an action is    *)
-(* the case analysis of the code (comments name the branch).               *)
+(* the case analysis of the code (comments name the branch).  Epochs are   *)
+(* counted modulo a small E, so the wrapping_add / wrapping_sub index      *)
+(* arithmetic wraps after E pops without an intervening clear.             *)
 (*                                                                         *)
 (*  Mode = "rt"   one MapOperationQueue: RtPush (update / remove / clear   *)
 (*                with key texts, several texts per Recon value), RtPop.   *)
